@@ -1,4 +1,5 @@
 """C09 - conservation of objects."""
+import itertools
 import os
 
 from harness import boot  # noqa
@@ -40,6 +41,25 @@ def run(ctx, replay=None):
     for cname in (['only_box', 'all'] if ctx.quick else ['only_box', 'all', 'all2', 'nested']):
         jobs = [dict(rec_id=i, st_json=s, space=steps.family_space(len(s['grid']), len(s['grid'][0]))) for i, s in enumerate(bfam)]
         sc.run_step_part(ctx, f'boxes_{cname}', jobs, dict(comps=steps.COMPOSITIONS[cname], via='direct'), PREFIX)
+    # a second holdable type: "holdable" is an attribute of the class, not "is a Key" (harness/custom.py, GVObjects.Holdable)
+    from harness import custom  # noqa: F401
+    O = steps.O
+    cells = [steps.FLOOR, O('Gem'), O('Key', 0, 'RED'), O('Wall'), O('Exit'), O('Door', 1, 'RED'), O('Box', 0, 'NONE', O('Gem'))]
+    helds = [O('NoneGridObject'), O('Gem'), O('Key', 0, 'RED'), O('Key', 0, 'BLUE')]
+    gfam = []
+    for (h, w) in [(1, 2), (2, 1)]:
+        for content in itertools.product(cells, repeat=h * w):
+            grid = [list(content[y * w:(y + 1) * w]) for y in range(h)]
+            for pos in range(h * w):
+                for ori in steps.ORIS:
+                    for held in helds:
+                        gfam.append({'grid': grid, 'pos': [pos // w, pos % w], 'ori': ori, 'item': held})
+    space = dict(steps.family_space(0, 0))
+    space['types'] = list(space['types']) + ['Gem']
+    for cname in (['only_pickndrop', 'all'] if ctx.quick else ['only_pickndrop', 'all', 'all2', 'nested', 'keydoor']):
+        jobs = [dict(rec_id=i, st_json=s_, space=dict(space, shape=[len(s_['grid']), len(s_['grid'][0])])) for i, s_ in enumerate(gfam)]
+        sc.run_step_part(ctx, f'holdables_{cname}', jobs, dict(comps=steps.COMPOSITIONS[cname], via='direct'), PREFIX)
+    ctx.add_part('holdable family (custom holdable object Gem next to Key)', size=len(gfam))
     sc.random_big_part(ctx, PREFIX, 300 if ctx.quick else 20000, seed_offset=2)
     sc.mc_reach(ctx, ['InvInventory', 'InvDoorsStayDoors'])
     sc.apalache_lemmas(ctx, ['LocalityLemma', 'ExchangeLemma', 'HeldLemma'], modules=('MC_GVSym_5x5',) if ctx.quick else ('MC_GVSym_5x5', 'MC_GVSym_7x9'))
